@@ -28,7 +28,7 @@ def positions(expl, v, N):
     return pos
 
 
-def h_explain(f, N, txt=None, period=None, defs=None, before=None):
+def h_explain(f, N, txt=None, period=None, defs=None, before=None, obj=False):
     f = T(f)
     names = []
     if defs:
@@ -40,6 +40,14 @@ def h_explain(f, N, txt=None, period=None, defs=None, before=None):
         names = [n for n, _ in dl]
         f = inline(f, dict(dl))
         subs_inl = [inline(d, dict(dl)) for _, d in dl]
+    if obj:
+        # the signals are the fields of ONE object-valued variable m (m.x, m.y, m.z): same formula, same oracle, other plumbing
+        def ren(g):
+            g = T(g)
+            if g[0] == 'var':
+                return ('var', 'm.' + g[1])
+            return tuple(ren(c) if isinstance(c, tuple) else c for c in g)
+        f = ren(f)
     vs = sorted(variables(f))
 
     def body(env):
@@ -51,10 +59,22 @@ def h_explain(f, N, txt=None, period=None, defs=None, before=None):
             s0.explain()
         if defs:
             s = dt.make_spec('offline', txt_full, vs + names, period=period)
+        elif obj:
+            import rtamt
+            from .. import objmsg
+            s = rtamt.StlDiscreteTimeOfflineSpecification()
+            s.import_module('vf.objmsg', 'Msg')
+            s.declare_var('m', 'Msg')
+            s.spec = 'out = ' + text(f)
+            s.parse()
         else:
             s = dt.make_spec('offline', 'out = ' + (txt or text(f)), vs, period=period)
         w = dt.trace(env, vs, N)
-        out = dt.offline(s, w, N)
+        if obj:
+            col = [objmsg.Msg(**{v[2:]: w[v][i] for v in vs}) for i in range(N)]
+            out = s.evaluate({'time': list(range(N)), 'm': col})
+        else:
+            out = dt.offline(s, w, N)
         s.explain()
         expl = s.explainer.explanations
         r0 = out[0][1]
@@ -280,6 +300,11 @@ def obligations(tier, rng):
         if f[0] == 'once_t':
             f = ('eventually_t', f, 2, 2)
         out.append(ob('C20', 'explain', 'units/%s/p=%s' % (txt, period), f=f, N=6, txt=txt, period=period, max_paths=40000, wall=600))
+    # object-valued signals: the variables of the formula are fields of one object (m.x, m.y), each field occurring more than once
+    GX, GY = ('geq', X, ('const', 3.0)), ('leq', Y, ('const', 4.0))
+    for f in [('or', ('leq', X, ('const', 4.0)), ('always', GX)), ('and', GX, ('eventually', GX)), ('or', ('always_t', GX, 0, 2), ('once', ('leq', X, ('const', 0.0)))),
+              ('implies', ('once', GX), ('always', ('and', GX, GY))), ('and', ('or', GX, GY), ('next', ('or', GY, GX))), ('always', ('implies', GY, ('eventually_t', GX, 0, 1)))]:
+        out.append(ob('C20', 'explain', 'object-fields/%s/N=5' % text(f), f=f, N=5, obj=True, max_paths=40000, wall=600))
     # the same bound text explained under one sampling period and then under another (both orders), in one process
     for txt, fa, fb in [('always[0:2]((x) >= (0.0))', ('always_t', GU, 0, 2), ('always_t', GU, 0, 4)), ('eventually[1:2]((x) >= (0.0))', ('eventually_t', GU, 1, 2), ('eventually_t', GU, 2, 4)),
                         ('eventually[0,1](once[1:2]((x) >= (0.0)))', ('eventually_t', ('once_t', GU, 1, 2), 0, 1), ('eventually_t', ('once_t', GU, 2, 4), 0, 2))]:
